@@ -269,6 +269,10 @@ func workerCmd(ph phase, scratch string, args ...string) *exec.Cmd {
 		// the race build is ~50x slower per step: sample the fault plans of
 		// a base instead of enumerating them
 		args = append([]string{"-plancap", "40"}, args...)
+	} else if *fTier == "quick" {
+		// quick tier: bases with more than 400 fault plans (long concurrent
+		// schedules) are sampled, so that more different bases fit in
+		args = append([]string{"-plancap", "400"}, args...)
 	}
 	base := []string{"-prop", *fProp, "-seed", strconv.FormatUint(*fSeed, 10), "-gate", ph.Gate, "-lock", ph.Lock, "-procs", strconv.Itoa(ph.Procs), "-dir", scratch}
 	if *fTier == "thorough" {
